@@ -62,3 +62,45 @@ Proof.
   replace (rate * Z.quot (x * nanos) rate - x * nanos) with (- Z.rem (x * nanos) rate) by lia.
   rewrite Z.abs_opp. lia.
 Qed.
+
+(* no spurious resynchronisation: while the exactly scaled frame timestamp, counted from the reference, stays
+   inside [now - 5 s, now], the estimator keeps its reference and returns exactly that instant *)
+Lemma no_spurious_resync rate e pts now :
+  1 <= rate <= two32 -> inited e = true ->
+  let d := pts - ref_pts e in
+  in_int64 d -> in_int64 (scaled rate d) ->
+  now - max_diff <= ref_ntp e + scaled rate d <= now ->
+  resyncs rate e pts now = false /\ estimate rate e pts now = (e, ref_ntp e + scaled rate d).
+Proof.
+  intros Hr Hi d I S W.
+  assert (scale_ok nanos rate) as Hs by (unfold scale_ok, nanos, two32 in *; split; [lia|split; [lia|left; reflexivity]]).
+  assert (computed rate e pts = ref_ntp e + scaled rate d) as C.
+  { unfold computed. fold d. rewrite (wrap64_id d I), (muldiv_exact d nanos rate Hs I S). reflexivity. }
+  assert (resyncs rate e pts now = false) as R.
+  { unfold resyncs. rewrite Hi, C. simpl.
+    destruct (Z.gtb_spec (ref_ntp e + scaled rate d) now); [lia|].
+    destruct (Z.ltb_spec (ref_ntp e + scaled rate d) (now - max_diff)); [lia|]. reflexivity. }
+  split; [exact R|]. rewrite (estimate_steady _ _ _ _ R). fold (computed rate e pts). rewrite C. reflexivity.
+Qed.
+
+(* a whole steady stretch: every call of the history stays inside the window of the same reference *)
+Definition in_step (rate : Z) (e : est) (c : Z * Z) : Prop :=
+  let d := fst c - ref_pts e in
+  in_int64 d /\ in_int64 (scaled rate d) /\ snd c - max_diff <= ref_ntp e + scaled rate d <= snd c.
+
+Lemma steady_stretch rate e : 1 <= rate <= two32 -> inited e = true ->
+  forall inp, Forall (in_step rate e) inp ->
+  run rate e inp = map (fun c => ref_ntp e + scaled rate (fst c - ref_pts e)) inp.
+Proof.
+  intros Hr Hi inp. induction inp as [|[pts now] r IH]; intros F; simpl; [reflexivity|].
+  inversion F as [|c l [I [S W]] F']; subst. simpl in I, S, W.
+  destruct (no_spurious_resync rate e pts now Hr Hi I S W) as [_ E]. rewrite E.
+  f_equal. apply IH. exact F'.
+Qed.
+
+(* ... hence two outputs of a steady stretch differ by the frame timestamp difference, less than 2 ns off *)
+Lemma steady_stretch_diff rate x y : 0 < rate ->
+  Z.abs (rate * (scaled rate y - scaled rate x) - (y - x) * nanos) < 2 * rate.
+Proof.
+  intros Hr. pose proof (scaled_close rate x Hr). pose proof (scaled_close rate y Hr). lia.
+Qed.
